@@ -524,10 +524,26 @@ def gen_scheme(rng, quick):
             n = rng.choice([8, 16, 64])
             b = rng.choice([10, 12, 14, 17])
             rank = rng.range(1, 2)
-            dsize = rng.range(1, 3)
+            dsize = rng.range(1, 4)
             p = rng.range(-n, n) | 1
             cases.append(dict(line=f"op={op} n={n} b={b} rank={rank} dsize={dsize} p={p} seed={rng.next() >> 1}", fam="scheme", op=op, dom="all",
                               n=n, key=("scheme", op, n, b, rank, dsize), nt=True))
+    # key-switch / automorphism / external product with digit sizes 3 and 4 explicitly
+    for op in ("keyswitch", "automorphism", "extprod", "cmux"):
+        for dsize in (3, 4):
+            for i in range(2 if quick else 8):
+                n = rng.choice([8, 16, 64])
+                b = rng.choice([10, 12, 14])
+                kin = rng.range(2, 6) * b + rng.range(0, b - 1)
+                cases.append(dict(line=f"op={op} n={n} b={b} rank={rng.range(1, 2)} dsize={dsize} kin={kin} p={rng.range(-n, n) | 1} seed={rng.next() >> 1}",
+                                  fam="scheme", op=op, dom="all", n=n, key=("scheme", op, n, b, dsize, "kin"), nt=True))
+    # CKKS program: encrypt, multiply, rescale, rotate (every intermediate ciphertext hashed)
+    for i in range(6 if quick else 40):
+        n = rng.choice([8, 16, 64])
+        b = rng.choice([10, 12, 14, 17])
+        dsize = rng.range(1, 3)
+        cases.append(dict(line=f"op=ckks_prog n={n} b={b} dsize={dsize} rs={rng.range(1, 2 * b)} rot={rng.choice([1, -1, 2, 3, n // 4])} seed={rng.next() >> 1}",
+                          fam="scheme", op="ckks_prog", dom="all", n=n, key=("scheme", "ckks_prog", n, b, dsize), nt=True))
     # relinearisation with a dirty scratch arena (the arena is overwritten between tensor product and relinearisation)
     for dsize in (1, 2, 3):
         for i in range(2 if quick else 8):
@@ -863,6 +879,69 @@ def run(ctx):
         if hal:
             for s in (hal[7], sch[0], smp[0]):
                 ctx.samples.append({"request": s["line"][:200], "navx": res.get((id(s), "navx"), "")[:160]})
+    # ---- gate 3c: scheme-level families of the other slices' harnesses, run on four back ends and byte-compared:
+    #      key-switch / automorphism / trace / packing (pvh ks, generators of C03), blind rotation (pvh lut, C14)
+    if binp:
+        from . import c03
+        r3 = rng.fork()
+        kcases = []
+        for k in range(24 if quick else 240):
+            n = [8, 16, 32][k % 3]
+            op = ["ks", "ks_assign", "auto", "trace", "ks", "auto_assign"][k % 6]
+            kcases.append(c03.shape(r3, op, n, ntt_only=(k % 8 == 7), force={"dsize": [3, 4, 1, 2][k % 4], "cls": ["enc", "raw", "ext"][k % 3]}))
+        class _T:       # c03.generate_pack only reads .tier
+            tier = ctx.tier
+        pk = c03.generate_pack(_T, r3)
+        kcases += pk[:: max(1, len(pk) // (40 if quick else 400))]
+        names = {"fref": "fft64ref", "favx": "fft64avx", "nref": "ntt120ref", "navx": "ntt120avx"}
+        jobs = [(c, be) for c in kcases for be in ("fref", "favx", "nref", "navx")]
+        lines = [c03.harness_line(i, c, names[be], i % 2) for i, (c, be) in enumerate(jobs)]
+        rc, out, err = ctx.run_lines(binp, ["ks"], lines, timeout=3000)
+        if rc != 0 or len(out) != len(jobs):
+            broken.append(f"pvh ks failed rc={rc} answers={len(out)}/{len(jobs)} {err[-300:]}")
+        resk = {(id(c), be): payload(out[i]) if i < len(out) else "?" for i, (c, be) in enumerate(jobs)}
+        for c in kcases:
+            infft = c03.in_fft_domain(c) and c["bkey"] <= 17
+            pairs = [("nref", "navx"), ("fref", "favx")] + ([("fref", "nref")] if infft else [])
+            for (p_, q_) in pairs:
+                rp, rq = resk.get((id(c), p_), "?"), resk.get((id(c), q_), "?")
+                if p_[0] == "f" and not infft and p_[0] == q_[0]:
+                    continue            # FFT64 outside its magnitude domain: not demanded
+                ctx.count_case(("ks", c["op"], c["n"], c["dsize"], c["bin"] == c["bkey"], c["bout"] == c["bkey"], c["rin"], c["rout"], p_ + "=" + q_),
+                               nontrivial=rp.startswith("ok"))
+                bump("ks/pack/trace")
+                if rp != rq:
+                    ctx.disagreements += 1
+                    what = "Ref != AVX" if p_[0] == q_[0] else "FFT64 != NTT120"
+                    broken.append(f"{what}: ks {c03.harness_line(0, c, names[p_], 0)[:300]}")
+                    witness = witness or {"kind": what, "request": c03.harness_line(0, c, names[p_], 0), "other_backend": names[q_],
+                                          p_: rp[-600:], q_: rq[-600:], "rerun": "printf '<request>\\n' | harness/target/release/pvh ks"}
+        ctx.cov["ks_pack_requests"] = len(jobs)
+        # blind rotation (standard, block-binary, extended), decrypted limbs compared
+        bcases = []
+        for (ng, nl, block, ext, dist) in [(32, 6, 1, 1, "block"), (32, 8, 4, 1, "block"), (16, 6, 3, 2, "block"), (32, 6, 2, 4, "block"),
+                                           (32, 6, 1, 1, "hw"), (64, 16, 8, 2, "block")] + ([] if quick else [(256, 16, 4, 1, "block"), (64, 8, 4, 8, "block")]):
+            for p_ in (1, 2, 3):
+                for msg in ([0, (1 << p_) - 1] if quick else range(1 << p_)):
+                    bcases.append(dict(nglwe=ng, nlwe=nl, block=block, ext=ext, dist=dist, p=p_, msg=msg, left=(msg + p_) % 2, seed=r3.range(1, 200),
+                                       rank=2 if (msg + p_) % 5 == 0 else 1, lweb=19))
+        jobs = [(c, be) for c in bcases for be in ("fref", "favx", "nref", "navx")]
+        lines = [f"{i} blind be={names[be]} " + " ".join(f"{k}={v}" for k, v in c.items()) for i, (c, be) in enumerate(jobs)]
+        rc, out, err = ctx.run_lines(binp, ["lut"], lines, timeout=3000)
+        if rc != 0 or len(out) != len(jobs):
+            broken.append(f"pvh lut blind failed rc={rc} answers={len(out)}/{len(jobs)} {err[-300:]}")
+        resb = {(id(c), be): payload(out[i]) if i < len(out) else "?" for i, (c, be) in enumerate(jobs)}
+        for c in bcases:
+            for (p_, q_) in (("nref", "navx"), ("fref", "favx"), ("fref", "nref")):
+                rp, rq = resb.get((id(c), p_), "?"), resb.get((id(c), q_), "?")
+                ctx.count_case(("blind", c["nglwe"], c["block"], c["ext"], c["dist"], c["p"], c["rank"], p_ + "=" + q_), nontrivial=rp.startswith("ok"))
+                bump("blind_rotation")
+                if rp != rq:
+                    ctx.disagreements += 1
+                    what = "Ref != AVX" if p_[0] == q_[0] else "FFT64 != NTT120"
+                    broken.append(f"{what}: blind {c}")
+                    witness = witness or {"kind": what, "request": "blind " + " ".join(f"{k}={v}" for k, v in c.items()), p_: rp[:600], q_: rq[:600]}
+        ctx.cov["blind_requests"] = len(jobs)
     ctx.cov["comparisons_by_family"] = fam_counts
 
     # ---- verdict
